@@ -194,10 +194,11 @@ fn run_streaming(mut cmd: Command, stall: Duration, total: Duration) -> (Finishe
     )
 }
 
-fn cargo_build(dir: &Path) -> Finished {
+fn cargo_build(dir: &Path, profile: &str) -> Finished {
     let mut cmd = Command::new("cargo");
     cmd.arg("build")
-        .arg("--release")
+        .arg("--profile")
+        .arg(profile)
         .arg("--offline")
         .arg("--color")
         .arg("never")
@@ -277,11 +278,22 @@ fn flush(mut pend: Vec<Pending>, o: &Opts, rep: &mut Report) {
 /// Emit, build (dropping shapes that fail to compile, up to MAX_REBUILDS rebuilds), execute, judge.
 fn pipeline(dir: &Path, all: &[Shape], o: &Opts, rep: &mut Report) {
     let mut pend = Vec::new();
-    pipeline_inner(dir, all, o, rep, &mut pend);
+    // two builds of the same generated crate: debug assertions off ("release") and on ("checked")
+    for profile in ["release", "checked"] {
+        let before = pend.len();
+        pipeline_inner(dir, all, o, rep, &mut pend, profile);
+        for p in pend[before..].iter_mut() {
+            let d = std::mem::replace(&mut p.detail, Json::obj());
+            p.detail = d.set("generated_crate_profile", if profile == "release" { "debug assertions off" } else { "debug assertions on" });
+        }
+    }
+    // one witness per (kind, shape)
+    let mut seen = BTreeSet::new();
+    pend.retain(|p| seen.insert((p.kind, p.shape.id())));
     flush(pend, o, rep);
 }
 
-fn pipeline_inner(dir: &Path, all: &[Shape], o: &Opts, rep: &mut Report, pend: &mut Vec<Pending>) {
+fn pipeline_inner(dir: &Path, all: &[Shape], o: &Opts, rep: &mut Report, pend: &mut Vec<Pending>, profile: &str) {
     let by_id: BTreeMap<String, Shape> = all.iter().map(|s| (s.id(), s.clone())).collect();
     rep.count("shapes_generated", all.len() as u64);
     let mut active: Vec<Shape> = all.to_vec();
@@ -296,7 +308,7 @@ fn pipeline_inner(dir: &Path, all: &[Shape], o: &Opts, rep: &mut Report, pend: &
             rep.inconclusive(format!("cannot write the generated crate into {}: {}", dir.display(), e));
             return;
         }
-        let b = cargo_build(dir);
+        let b = cargo_build(dir, profile);
         build_walls.push(b.wall_s);
         if o.verbose {
             eprintln!("--- cargo build (round {}) took {:.1}s, exit {:?}\n{}", round, b.wall_s, b.code, clip(&b.stderr, 20000));
@@ -383,8 +395,8 @@ fn pipeline_inner(dir: &Path, all: &[Shape], o: &Opts, rep: &mut Report, pend: &
             ));
         }
     }
-    rep.extra("build_wall_s", build_walls.clone());
-    rep.extra("builds", build_walls.len());
+    rep.extra(&format!("build_wall_s_{}", profile), build_walls.clone());
+    rep.extra(&format!("builds_{}", profile), build_walls.len());
     if !compile_failed.is_empty() {
         rep.extra("compile_failed_shapes", compile_failed.iter().cloned().collect::<Vec<String>>());
     }
@@ -394,7 +406,7 @@ fn pipeline_inner(dir: &Path, all: &[Shape], o: &Opts, rep: &mut Report, pend: &
     rep.count("shapes_compiled", active.len() as u64);
 
     // ---- execution
-    let bin = dir.join("target").join("release").join("lambda_shapes");
+    let bin = dir.join("target").join(profile).join("lambda_shapes");
     let mut start = 0usize;
     let mut done: BTreeMap<String, Result<(), String>> = BTreeMap::new();
     let mut restarts = 0usize;
@@ -498,7 +510,7 @@ fn pipeline_inner(dir: &Path, all: &[Shape], o: &Opts, rep: &mut Report, pend: &
             }
         }
     }
-    rep.extra("run_wall_s", t_run.elapsed().as_secs_f64());
+    rep.extra(&format!("run_wall_s_{}", profile), t_run.elapsed().as_secs_f64());
 
     // ---- judge
     let mut executed = 0u64;
@@ -516,6 +528,7 @@ fn pipeline_inner(dir: &Path, all: &[Shape], o: &Opts, rep: &mut Report, pend: &
         rep.see_str("call_syntaxes", if sh.tc { "trailing comma" } else { "no trailing comma" });
         rep.see_str("ret_kinds", if sh.ret { "return type" } else { "no return type" });
         rep.see_str("body_variants", sh.variant.name());
+        rep.see_str("generated_crate_profiles", profile);
         rep.see_str("grid_cells", &format!("{}/{}/{}/{}", sh.pattern(), sh.nargs, sh.ret, sh.tc));
         if sh.nontrivial() {
             rep.see("nontrivial", hash_str(&id));
@@ -558,7 +571,7 @@ fn main() {
                 match Variant::parse(part.trim()) {
                     Some(x) => v.push(x),
                     None => {
-                        eprintln!("unknown body variant {:?} (lin, two, types, mix)", part);
+                        eprintln!("unknown body variant {:?} (lin, two, types, mix, refs, names, deep)", part);
                         std::process::exit(2);
                     }
                 }
